@@ -921,6 +921,9 @@ class Exec:
             return a.len
         if isinstance(a, UUIDStr):
             return 36
+        h = getattr(a, 'go_len', None)
+        if h is not None:
+            return h(self)
         if isinstance(a, str):
             return len(a.encode('utf-8'))
         if isinstance(a, MapObj):
@@ -1433,6 +1436,10 @@ def sym_index(ex, idx, n, what):
 def op_index(ex, fr, ins, b):
     x = ex.val(fr, ins['x'])
     i = ex.val(fr, ins['y'])
+    hook = getattr(x, 'go_index', None)
+    if hook is not None:
+        fr.regs[ins['r']] = hook(ex, i)
+        return
     if isinstance(x, str):
         bs = x.encode('utf-8')
         i = sym_index(ex, i, len(bs), 'string')
